@@ -54,12 +54,12 @@ type Term struct {
 }
 
 const (
-	KConst = iota // literal: 0, true, ...
-	KSym          // declared constant (0-ary) — Op is its name
-	KApp          // uninterpreted function application — Op is the function name
-	KBuiltin      // SMT builtin: + - * div mod < <= = and or not => ite select store distinct
-	KQuant        // forall / exists
-	KBVar         // bound variable
+	KConst   = iota // literal: 0, true, ...
+	KSym            // declared constant (0-ary) — Op is its name
+	KApp            // uninterpreted function application — Op is the function name
+	KBuiltin        // SMT builtin: + - * div mod < <= = and or not => ite select store distinct
+	KQuant          // forall / exists
+	KBVar           // bound variable
 )
 
 type FunDecl struct {
